@@ -524,7 +524,17 @@ func runC05Needs(c *Ctx) {
 	// calcNeedsType hands the same job twice
 	for _, call := range findCalls(calc, "(*RuleExpression).populateDependantNeedsTypes") {
 		a := call.Common().Args
-		if len(a) == 4 && a[2] == ssa.Value(calc.Params[1]) && a[3] == ssa.Value(calc.Params[1]) {
+		// every *Job argument of the call is the job calcNeedsType was given (one parameter for it, or two)
+		jobs, same := 0, true
+		for _, x := range a {
+			if typeStr(x.Type()) == "*Job" {
+				jobs++
+				if len(calc.Params) < 2 || x != ssa.Value(calc.Params[1]) {
+					same = false
+				}
+			}
+		}
+		if jobs > 0 && same {
 			c.ok("(*RuleExpression).calcNeedsType|job", call.Pos(), "populated from the job itself")
 		} else {
 			c.bad("(*RuleExpression).calcNeedsType|job", call.Pos(), "the needs scope is not populated from the job being checked")
